@@ -7,7 +7,9 @@ TLC: TraceIR.tla -- IROK (the documented shape, nine named clauses) evaluated on
 V:   drivers: (a) every emitted artefact of a TLC-enumerated sample of Formats/Docstring behaviours, re-parsed;
      (b) every mock of the repository through the parser the repository's own `infer` selects; (c) grammar-generated
      docstrings in three styles (sections in any order, usage/notes/raises sections, multi-line descriptions,
-     *args/**kwargs entries); (d) generated functions with every argument kind; (e) arbitrary text (TLC-enumerated
+     *args/**kwargs entries); (d) generated functions with every argument kind; (f) generated SQLAlchemy models (class and
+     Table form, every column keyword in every spelling, columns described or not), classes, argparse functions and
+     JSON-schemas; (e) arbitrary text (TLC-enumerated
      token sequences + seeded random fragments) for the docstring parser whenever it returns.
 """
 
@@ -308,6 +310,191 @@ def drive_generated(args):
             pass
     return out
 
+# ---- (f) generated models: SQLAlchemy (class and Table form), classes, argparse functions, JSON-schemas ----------------------
+SQL_TYPES = ["Integer", "String", "Float", "Boolean", "JSON", "String(64)", "Enum('a', 'b', name='kind')", "LargeBinary", "BigInteger"]
+COLS = ["id", "name", "sensor_id", "value", "is_on", "payload", "created", "kind", "dataset_name"]
+# the keywords the tool itself writes (primary_key, nullable, default, comment/doc, ForeignKey) in every spelling a model author uses,
+# plus the commonest ones it does not write
+def gen_column(rnd, name, pk, extra_kw):
+    args = [rnd.choice(SQL_TYPES)]
+    if rnd.random() < 0.2:
+        args.append('ForeignKey("{}.id")'.format(rnd.choice(["sensor", "user_account"])))
+    kw = []
+    if pk:
+        kw.append("primary_key=True")
+    elif rnd.random() < 0.35:
+        kw.append("primary_key=False")
+    r = rnd.random()
+    if r < 0.3:
+        kw.append("nullable=True")
+    elif r < 0.6:
+        kw.append("nullable=False")
+    if rnd.random() < 0.4:
+        kw.append("default=" + rnd.choice(["5", "'x'", "None", "True", "0", "''", "1.5"]))
+    r = rnd.random()
+    if r < 0.3:
+        kw.append("comment={!r}".format("the " + name))
+    elif r < 0.5:
+        kw.append("doc={!r}".format("the " + name + "."))
+    elif r < 0.55:
+        kw.append("comment=''")
+    if extra_kw and rnd.random() < 0.3:
+        kw.append(rnd.choice(["index=True", "unique=True", "autoincrement=True", "server_default='0'", "index=False", "unique=False"]))
+    rnd.shuffle(kw)
+    return args, kw
+
+
+def gen_sqlalchemy(rnd):
+    form = rnd.choice(["class", "table"])
+    names = rnd.sample(COLS, rnd.randint(1, 5))
+    pk = rnd.choice(names + [None])
+    extra_kw = rnd.random() < 0.3
+    described = rnd.sample(names, rnd.randint(0, len(names)))
+    cols = [(n,) + gen_column(rnd, n, n == pk, extra_kw) for n in names]
+    if form == "class":
+        doc = ['    """', "    The {} table".format("sensor"), ""] + ["    :cvar {0}: the {0} column".format(n) for n in described] + ['    """']
+        if rnd.random() < 0.15:
+            doc = []
+        body = ["class Sensor(Base):"] + doc + ['    __tablename__ = "sensor"', ""]
+        body += ["    {} = Column({})".format(n, ", ".join(a + k)) for n, a, k in cols]
+        if rnd.random() < 0.3:
+            body += ["", "    def __repr__(self):", '        """repr"""', "        return 'Sensor()'"]
+        src = "\n".join(body) + "\n"
+    else:
+        comment = ", comment={!r}".format("The sensor table\n\n" + "\n".join(":param {0}: the {0} column".format(n) for n in described)) \
+            if rnd.random() < 0.8 else ""
+        src = 'sensor = Table("sensor", metadata, {}{})\n'.format(
+            ", ".join("Column({})".format(", ".join([repr(n)] + a + k)) for n, a, k in cols), comment)
+    return src, form, extra_kw
+
+
+def gen_class(rnd):
+    names = rnd.sample(["alpha", "beta", "n_steps", "as_numpy", "K", "x1"], rnd.randint(0, 5))
+    style = rnd.choice(["rest", "google", "numpydoc", "none"])
+    described = rnd.sample(names, rnd.randint(0, len(names)))
+    lines = ["Acquire the thing.", ""]
+    if style == "rest":
+        lines += [":cvar {0}: the {0}".format(n) for n in described]
+    elif style == "google":
+        lines += (["Attributes:"] + ["    {0} (int): the {0}".format(n) for n in described]) if described else []
+    elif style == "numpydoc":
+        lines += (["Attributes", "----------"] + ["{0} : int\n    the {0}".format(n) for n in described]) if described else []
+    doc = "" if style == "none" else '    """\n' + "\n".join("    " + ln if ln else "" for ln in "\n".join(lines).split("\n")) + '\n    """\n'
+    body = []
+    for n in names:
+        ann = rnd.choice([": int", ": Optional[str]", ": 'np.ndarray'", ": List[str]", ""])
+        d = rnd.choice([" = None", " = 5", " = 'x'", " = -1.5", " = (1, 2)", " = []", ""])
+        if not ann and not d:
+            d = " = 0"
+        body.append("    {}{}{}".format(n, ann, d))
+    if rnd.random() < 0.3:
+        body += ["", "    def __call__(self):", '        """call it"""', "        return self.alpha" if "alpha" in names else "        return 1"]
+    if not doc and not body:
+        body = ["    pass"]
+    return "class Cfg(object):\n" + doc + "\n".join(body) + "\n", style
+
+
+def gen_argparse(rnd):
+    names = rnd.sample(["alpha", "beta", "n_steps", "as_numpy", "K", "x1"], rnd.randint(0, 5))
+    lines = ["def set_cli_args(argument_parser):", '    """', "    Set CLI arguments", "",
+             "    :param argument_parser: argument parser", "    :type argument_parser: ```ArgumentParser```", "",
+             "    :return: argument_parser", "    :rtype: ```ArgumentParser```", '    """',
+             '    argument_parser.description = {!r}'.format(rnd.choice(["Train it", "Train it.\n\nLong text", ""]))]
+    for n in names:
+        kw = []
+        if rnd.random() < 0.7:
+            kw.append("type=" + rnd.choice(["int", "str", "float", "loads", "bool"]))
+        if rnd.random() < 0.6:
+            kw.append("help={!r}".format(rnd.choice(["the " + n, "the " + n + ".", "", "number of {}".format(n)])))
+        if rnd.random() < 0.4:
+            kw.append("default=" + rnd.choice(["5", "'x'", "None", "True", "0", "''", "-1.5", "[]"]))
+        if rnd.random() < 0.3:
+            kw.append("required=" + rnd.choice(["True", "False"]))
+        if rnd.random() < 0.15:
+            kw.append("choices=('a', 'b')")
+        if rnd.random() < 0.15:
+            kw.append('action="append"' if rnd.random() < 0.5 else 'action="store_true"')
+            kw = [k for k in kw if not k.startswith(("type=", "choices="))] if "store_true" in kw[-1] else kw
+        if rnd.random() < 0.1:
+            kw.append("nargs=" + rnd.choice(["'*'", "'+'", "2"]))
+        lines.append("    argument_parser.add_argument({})".format(", ".join(['"--{}"'.format(n)] + kw)))
+    lines.append("    return argument_parser" + rnd.choice(["", ", Cfg"]))
+    return "\n".join(lines) + "\n"
+
+
+def gen_json_schema(rnd):
+    names = rnd.sample(["alpha", "beta", "n_steps", "as_numpy", "K", "x1"], rnd.randint(0, 5))
+    props = {}
+    for n in names:
+        e = {}
+        r = rnd.random()
+        if r < 0.8:
+            e["type"] = rnd.choice(["integer", "string", "number", "boolean", "object", "array", "null"])
+        elif r < 0.9:
+            e["anyOf"] = [{"type": "string"}, {"type": "integer"}]
+        if rnd.random() < 0.6:
+            e["description"] = rnd.choice(["the " + n, "", "the " + n + "."])
+        if rnd.random() < 0.4:
+            e["default"] = rnd.choice([5, "x", None, True, 0, "", -1.5, [], {}])
+        if e.get("type") == "string" and rnd.random() < 0.3:
+            e.update(rnd.choice([{"pattern": "^(a|b)$"}, {"enum": ["a", "b"]}, {"format": "date-time"}, {"pattern": "^a|b$"}]))
+        if e.get("type") == "array" and rnd.random() < 0.6:
+            e["items"] = {"type": "string"}
+        props[n] = e
+    doc = {"$id": "https://example.com/cfg.schema.json", "$schema": "https://json-schema.org/draft/2020-12/schema",
+           "type": "object", "properties": props}
+    if rnd.random() < 0.8:
+        doc["description"] = rnd.choice(["The cfg", "The cfg.\n\nLonger text"])
+    if rnd.random() < 0.7:
+        doc["required"] = rnd.sample(names, rnd.randint(0, len(names)))
+    if rnd.random() < 0.2:
+        del doc["$id"]
+    return doc
+
+
+def drive_models(args):
+    seed, n = args
+    rnd = random.Random(seed)
+    out = []
+    try:
+        import copy
+
+        import cdd.argparse_function.parse
+        import cdd.class_.parse
+        import cdd.json_schema.parse
+        import cdd.sqlalchemy.parse
+    except Exception:
+        return out
+    for k in range(n):
+        src, form, extra_kw = gen_sqlalchemy(rnd)
+        try:
+            node = ast.parse(src).body[0]
+            back = _quiet(cdd.sqlalchemy.parse.sqlalchemy if form == "class" else cdd.sqlalchemy.parse.sqlalchemy_table, node)
+            out.append(("gen-sql:{}:{}".format(seed, k), "generated:sqlalchemy_{}{}".format(form, ":other_keywords" if extra_kw else ""),
+                        project(back, ""), src))
+        except Exception:
+            pass
+        src, style = gen_class(rnd)
+        try:
+            back = _quiet(cdd.class_.parse.class_, ast.parse(src).body[0])
+            out.append(("gen-class:{}:{}".format(seed, k), "generated:class:" + ("no_docstring" if style == "none" else style),
+                        project(back, ""), src))
+        except Exception:
+            pass
+        src = gen_argparse(rnd)
+        try:
+            back = _quiet(cdd.argparse_function.parse.argparse_ast, ast.parse(src).body[0])
+            out.append(("gen-argparse:{}:{}".format(seed, k), "generated:argparse", project(back, ""), src))
+        except Exception:
+            pass
+        doc = gen_json_schema(rnd)
+        try:
+            back = _quiet(cdd.json_schema.parse.json_schema, copy.deepcopy(doc))
+            out.append(("gen-json:{}:{}".format(seed, k), "generated:json_schema", project(back, ""), json.dumps(doc)))
+        except Exception:
+            pass
+    return out
+
 
 def drive_text(texts):
     out = []
@@ -371,6 +558,9 @@ def _check(run, replay, work):
     # (c, d) generated
     n = 150 if quick else 2000
     for part in pmap(drive_generated, [(run.seed * 100 + k, n) for k in range(NCPU)], chunksize=1):
+        recs += part
+    # (f) generated SQLAlchemy models / classes / argparse functions / JSON-schemas
+    for part in pmap(drive_models, [(run.seed * 1000 + k, n) for k in range(NCPU)], chunksize=1):
         recs += part
     # (e) arbitrary text: TLC-enumerated token sequences (Loops.tla) + random fragments
     r = run.tlc("Loops", "MC_Loops_tokens.cfg", shards=NCPU, constants={"MaxTok": 2 if quick else 3}, timeout=3000)
@@ -454,6 +644,8 @@ def _only_swallowed(rec):
     return bool(rec.get("bad_typs")) and all(t.strip() == "" or "\n" in t for t in rec["bad_typs"])
 
 
+SQL_OTHER = ("index", "unique", "autoincrement", "server_default")
+JSON_OTHER = ("items", "enum", "format")
 FINDINGS = [
     ("function_without_docstring_has_no_doc", "DocOK",
      lambda cls, rec, inp: cls.endswith("no_docstring") and rec["doc"] == "missing"),
@@ -464,6 +656,9 @@ FINDINGS = [
      lambda cls, rec, inp: cls in ("generated:docstring:rest", "arbitrary_text") and _only_swallowed(rec)),
     ("arbitrary_text_type_not_expression", "ParamTypOK",
      lambda cls, rec, inp: cls == "arbitrary_text" and ":type" in str(inp)),
+    ("arbitrary_text_section_type_not_expression", "ParamTypOK",
+     lambda cls, rec, inp: cls == "arbitrary_text" and ("Args:" in str(inp) or "Parameters\n---" in str(inp))
+     and all(any(ch in t for ch in "(\"\u00a0`") for t in rec.get("bad_typs", []))),
     ("numpydoc_double_colon_line_as_param", "ParamTypOK",
      lambda cls, rec, inp: cls in ("generated:docstring:numpydoc", "arbitrary_text") and rec.get("bad_typs") == [":"]
      and "::" in str(inp)),
@@ -472,5 +667,11 @@ FINDINGS = [
     ("sqlalchemy_table_server_default_key", "ParamKeysOK",
      lambda cls, rec, inp: cls == "mock:sqlalchemy_table"
      and all(set(p["keys"]) <= ALLOWED | {"server_default"} for p in rec["params"])),
+    ("sqlalchemy_untranslated_column_keyword_copied", "ParamKeysOK",
+     lambda cls, rec, inp: cls in ("generated:sqlalchemy_class:other_keywords", "generated:sqlalchemy_table:other_keywords")
+     and all(set(p["keys"]) <= ALLOWED | {k for k in SQL_OTHER if k + "=" in str(inp)} for p in rec["params"])),
+    ("json_schema_untranslated_keyword_copied", "ParamKeysOK",
+     lambda cls, rec, inp: cls == "generated:json_schema"
+     and all(set(p["keys"]) <= ALLOWED | {k for k in JSON_OTHER if '"{}":'.format(k) in str(inp)} for p in rec["params"])),
 ]
 TRIAGE = {}
